@@ -582,6 +582,7 @@ func (m *Mux) serveGRPC(w http.ResponseWriter, r *http.Request) {
 	herr := hd.handler(&m.opts, stream)
 	if !stream.sentHeader {
 		if err := stream.SendHeader(nil); err != nil {
+			m.opts.endRPC(ctx, beginTime, herr)
 			return // ctx canceled
 		}
 	}
